@@ -541,6 +541,14 @@ func init() {
 					out = append(out, fmt.Sprintf("m=1,s=%d:%s+%d:none,o=k,u=WI", cut, k, full))
 				}
 			}
+			// (b3) several outages in a row, each with failed reopen attempts before the one that works: the
+			// attempt budget is per outage, and a healthy session follows
+			for _, mo := range []string{"2:ekek", "2:ekekek", "3:eekeek", "3:ekeekek", "2:kek"} {
+				q := strings.SplitN(mo, ":", 2)
+				nOut := strings.Count(q[1], "k")
+				sess := strings.Repeat("10:err+", nOut) + fmt.Sprintf("%d:none", full)
+				out = append(out, fmt.Sprintf("m=%s,s=%s,o=%s,u=WWI", q[0], sess, q[1]))
+			}
 			// (c) reopen attempts that fail, all policies
 			for _, m := range []int{0, 1, 2} {
 				for _, o := range []string{"k", "ek", "eek", "eee"} {
